@@ -293,6 +293,10 @@ def step (st : WSt) (ws : List String) : Option (WSt × String) :=
           | "get", "me" :: "desc" :: _ => some (c0.opGetMeDesc a)
           | "get", "me" :: "sub" :: _ => some (c0.opGetMeSub a)
           | "setsub", "me" :: _ => some (c0.opSetSubMe a (kvGet m "user") (optStr (kvGet m "mode")))
+          | "settags", "me" :: _ =>
+            let tagArg := kvGet m "tags"
+            some (c0.opSetTagsMe a (if tagArg = "" then [] else tagArg.splitOn ","))
+          | "get", "me" :: "tags" :: _ => some (c0.opGetTagsMe a)
           | "sub", "fnd" :: _ => some (c0.opSubFnd a)
           | "leave", "fnd" :: _ => some (c0.opLeaveFnd a (kvGet m "unsub" = "1"))
           | "pub", "fnd" :: _ => some (c0.opPubFnd a)
